@@ -170,7 +170,8 @@ class RealPipe:
 
     def server_close(self, hidden: bool = False) -> None:
         if not self.closing:
-            self.outq.append(("close", False))
+            # many real servers end a TLS connection without close_notify; all three httpcore backends are configured to accept that
+            self.outq.append(("close", bool(self.world.ragged_close)))
             self.closing = True
 
 
@@ -198,6 +199,10 @@ class RealNet:
         self.host_ips: dict = {}
         self.draining = False
         self.t0 = time.monotonic()
+        self.ragged_close = False  # the server's own (planned) closes of TLS connections come without close_notify
+        self.limit = None  # max_connections of the client's pool, if the server side should watch it
+        self.max_open = 0
+        self.overshoots: list = []
 
     # ---- faults
     def fault_for(self, pipe):
@@ -290,9 +295,37 @@ class RealNet:
                 pipe = RealPipe(self, len(self.pipes), name, conn)
                 self.pipes.append(pipe)
                 pipe.peer = self.cfg.peer_factory(self, pipe)
+                earlier = list(self.pipes[:-1])
+            if self.limit is not None:
+                # connection limit as the SERVER side sees it: connections accepted earlier that the client has not closed (no FIN / RST seen,
+                # POLLRDHUP looks behind unread data). An apparent overshoot is re-checked for 0.3 s: a connection the pool has already dropped
+                # and is closing ("evicted and being closed") disappears in that time, one that the pool really holds does not.
+                alive = [p for p in earlier if self._alive(p)]
+                self.max_open = max(self.max_open, min(len(alive) + 1, self.limit))
+                if len(alive) + 1 > self.limit:
+                    t_end = time.monotonic() + 0.3
+                    while time.monotonic() < t_end and len(alive) + 1 > self.limit:
+                        time.sleep(0.01)
+                        alive = [p for p in alive if self._alive(p)]
+                    if len(alive) + 1 > self.limit and not pipe.ended.is_set():
+                        self.overshoots.append({"new": pipe.id, "still_open": [p.id for p in alive], "targets": [p.target for p in alive] + [pipe.target]})
+                        self.max_open = max(self.max_open, len(alive) + 1)
             t = threading.Thread(target=self._serve, args=(pipe,), daemon=True)
             pipe.thread = t
             t.start()
+
+    def _alive(self, p):
+        import select
+
+        if p.ended.is_set():
+            return False
+        try:
+            po = select.poll()
+            po.register(p.sock.fileno(), select.POLLRDHUP | select.POLLHUP | select.POLLERR)
+            ev = po.poll(0)
+        except (OSError, ValueError):
+            return False
+        return not ev
 
     # ---- TLS plumbing (server side, any depth)
     def _write_at(self, pipe, level, data):
